@@ -138,3 +138,14 @@ M("intersection-advances-a-only", SO, "                yield a\n                
 M("hashcomplement-strict-inverted", SO, "        if bcnt[t] > 0:\n            if not strict:\n                bcnt[t] -= 1", "        if bcnt[t] > 0:\n            if strict:\n                bcnt[t] -= 1", ["C08"])
 M("recordcomplement-no-align", SO, "    bv = cut(b, *ha)\n    return complement(a, bv,", "    bv = b\n    return complement(a, bv,", ["C08"])
 M("diff-swapped", SO, "    return added, subtracted\n\n\nTable.diff = diff", "    return subtracted, added\n\n\nTable.diff = diff", ["C08"])
+
+DD = "transform/dedup.py"
+# ---- C10 ----------------------------------------------------------------------------------
+M("duplicates-yielded-flag-not-reset", DD, "            else:\n                # reset\n                previous_yielded = False\n            previous = row\n    \n    \ndef unique(", "            previous = row\n    \n    \ndef unique(", ["C10"])
+M("unique-no-last-row-flush", DD, "    # last one?\n    if prev_comp_ne:\n        yield prev", "    # last one?\n    if False:\n        yield prev", ["C10"])
+M("distinct-count-not-reset", DD, "                        yield tuple(previous) + (n_dup,)\n                        n_dup = 1\n                        previous = row", "                        yield tuple(previous) + (n_dup,)\n                        previous = row", ["C10"])
+M("distinct-compares-whole-row", DD, "            for row in it:\n                keys = getkey(row)\n                if keys != previous_keys:", "            for row in it:\n                keys = tuple(row)\n                if keys != previous_keys:", ["C10"])
+M("conflicts-missing-counts-as-conflict", DD, "                        if missing not in (x, y) and x != y:", "                        if x != y:", ["C10"])
+M("conflicts-exclude-ignored", DD, "                    if (exclude and f not in exclude) \\\n", "                    if exclude \\\n", ["C10"])
+M("isunique-first-field-only", DD, "    for v in itervalues(table, field):", "    for v in itervalues(table, field[0] if isinstance(field, (list, tuple)) and len(field) > 1 else field):", ["C10"])
+M("unique-keeps-first-of-dups", DD, "        if prev_comp_ne and curr_comp_ne:\n            yield tuple(prev)", "        if prev_comp_ne:\n            yield tuple(prev)", ["C10"])
